@@ -75,5 +75,32 @@ def closedOfTable (t : Table) : List (List Nat) :=
   if t.width ≤ t.height then (Spec.allConcepts t).map (·.1)
   else (Spec.allConcepts (Spec.transpose t)).map (·.2)
 
+/-! ### what "the mined lattice is exact" means -/
+
+/-- two index lists denote the same object set -/
+def SetEqL (a b : List Nat) : Prop := ∀ g, g ∈ a ↔ g ∈ b
+
+/-- The list of pattern concepts holds every closed object set of the context exactly once and nothing else;
+    extents are duplicate-free in-range index lists (the object-wise path lists them in generation order, not
+    ascending), and every concept carries `intention_i` of its extent, i.e. its most specific description. -/
+structure ExactMV (K : MVCtx) (pcs : List PC) : Prop where
+  wf : ∀ pc ∈ pcs, (∀ g ∈ pc.extent, g < K.nObjects) ∧ pc.extent.Nodup ∧ pc.intent = K.intentionI pc.extent
+  distinct : pcs.Pairwise fun p q => ¬ SetEqL p.extent q.extent
+  sound : ∀ pc ∈ pcs, ∃ S ∈ K.closedSets, SetEqL pc.extent S
+  complete : ∀ S ∈ K.closedSets, ∃ pc ∈ pcs, SetEqL pc.extent S
+
 end MVCtx
+
+/-- two descriptions of one column say the same (sets compared as sets) -/
+def DVal.Equiv : DVal → DVal → Prop
+  | .ival a, .ival b => a = b
+  | .sval none, .sval none => True
+  | .sval (some a), .sval (some b) => ∀ x, x ∈ a ↔ x ∈ b
+  | .bval a, .bval b => a = b
+  | _, _ => False
+
+/-- two descriptions have the same keys in the same order and equivalent values -/
+def DescEquiv (d e : Desc) : Prop :=
+  d.length = e.length ∧ ∀ p ∈ d.zip e, p.1.1 = p.2.1 ∧ p.1.2.Equiv p.2.2
+
 end Fca.MV
